@@ -360,7 +360,7 @@ Plan generate_plan(const std::string& prop, unsigned long long vseed, unsigned l
         }
     } else if (prop == "C17") {
         p.mgrs = {MK_LIBC, MK_SIM, MK_COMPLETED}; p.mgr_mask = {0, 0, 0};
-        int giant_cases = 10;
+        int giant_cases = 12;
         if (index < (unsigned long long)giant_cases) {
             p.extra = J::obj(); p.extra.set("mode", "giant"); p.extra.set("case", (long long)index);
             return p;
